@@ -47,4 +47,5 @@ EXTRAS = [
     lambda rep, fb, tier: __import__("vf.rules.lints3", fromlist=["x"]).rule_identities_offset_units(rep, fb),
     lambda rep, fb, tier: __import__("vf.rules.pyrules5", fromlist=["x"]).rule_py_offsets_of_pieces(rep),
     lambda rep, fb, tier: __import__("vf.rules.lints3", fromlist=["x"]).rule_regularized_copy_used(rep, fb),
+    lambda rep, fb, tier: __import__("vf.rules.lints3", fromlist=["x"]).rule_alloc_len_stride(rep, fb),
 ]
